@@ -1271,6 +1271,26 @@ def state_closure(cx: Cx, ob: Ob) -> None:
             if scans and reads and max(s_.line for s_ in scans) > min(reads):
                 ob.undecide(f"{m.name} keeps a look-aside table self.{attr} and falls back on the scan of self.records (line {max(s_.line for s_ in scans)}): that a hit is always the record the scan would find is not decided")
                 continue
+        if how == "assign" and attr.startswith("_") and attr not in TABLES and attr not in BASE and _reset_unconditionally(cx, ob, attr):
+            # a single remembered answer: re-used for a LATER query it is right only under a condition on the tables
+            # (nothing registered that would answer that query differently).  A store that asks the tables nothing
+            # remembers every answer - the plain history dependence; one that does is a value question.
+            ms2 = cx.summary(m, ob.id, full=True)
+            mme2 = ("param", m.self_name)
+            asks = False
+            for e2, c2 in ms2.walk():
+                if e2.kind == "store" and e2.a == ev.a and e2.line == ev.line:
+                    if any(g.kind == "guard" and any(op(x) == "attr" and x[1] == mme2 and x[2] in TABLES for x in subterms(g.a)) for g in c2.guards):
+                        asks = True
+            if not asks and not is_const(ev.b, None):
+                ob.violate(
+                    m.qualname,
+                    where(m, ev.line),
+                    f"{m.name} remembers its last answer in self.{attr} whatever it was and re-uses it for later queries: the answer to a query then depends on the queries before it (after a hit on an outer URI prefix, a URI under a longer, nested prefix is answered with the outer one)",
+                    witness="parse_uri('http://x/obo/BFO_1') then parse_uri('http://x/obo/GO_1') with prefixes .../obo/ and .../obo/GO_",
+                    detail=f"state-write:{attr}",
+                )
+                continue
         if attr not in TABLES and attr not in BASE and (how in ("item-store", "call .setdefault()") or (how == "assign" and attr.startswith("_"))) and _reset_unconditionally(cx, ob, attr):
             # a memo of query results keyed by the query, which _index - run on every mutation path (pairing
             # obligation) - resets on all of its paths.  That the key covers everything the answer depends on is
